@@ -390,7 +390,7 @@ ALPHABETS["N"] = {
                              ["less_than", ["nan", "math"]], ["less_than", ["nan", "calc"]]],
     "unary": [["not_"], ["has_item"], ["has_all_items"], ["has_entry", ["k"]], ["is_type", "float"]],
 }
-# the same with NaNs INSIDE containers (open finding D42: Python's containers take an identity shortcut)
+# the same with NaNs INSIDE containers (open finding D46: Python's containers take an identity shortcut)
 ALPHABETS["NC"] = {
     "leaves": _NAN_LEAVES[:2] + [["equal_to", ["l", [["nan", "math"]]]], ["equal_to", ["l", [["nan", "new"]]]], ["equal_to", ["d", [["r", ["nan", "json"]]]]],
                                  ["equal_to", ["d", [["r", ["nan", "calc"]]]]], ["is_in", [["nan", "math"]]], ["is_in", [["nan", "new"]]], ["equal_to", ["f", 3]]],
@@ -554,7 +554,7 @@ class Inject(C.Stream):
         {"mode": "pool", "exprs": [["equal_to", ["nan", src]] for src in G.NAN_SOURCES] + [["not_", ["equal_to", ["nan", src]]] for src in G.NAN_SOURCES] +
                                   [["has_item", ["equal_to", ["nan", "math"]]], ["has_item", ["equal_to", ["nan", "new"]]],
                                    ["has_entry", ["k"], ["val", ["nan", "json"]]], ["has_entry", ["k"], ["val", ["nan", "calc"]]]]},
-        # D42 (open): a NaN INSIDE an expected container: Python's containers compare identical items without asking ==
+        # D46 (open): a NaN INSIDE an expected container: Python's containers compare identical items without asking ==
         {"mode": "pool", "exprs": [["equal_to", ["d", [["r", ["nan", "math"]]]]], ["equal_to", ["d", [["r", ["nan", "new"]]]]]]},
         # D43 (open): a tuple is worded like the list, which is not equal to it
         {"mode": "pool", "exprs": [["equal_to", ["tuple", [["i", 1], ["i", 2]]]], ["equal_to", ["l", [["i", 1], ["i", 2]]]]]},
@@ -805,7 +805,7 @@ class Jsonify(C.Stream):
         {"vals": [["l", [["x", "uuid"]]], ["l", [["s", G.foreign_text("uuid")]]], ["d", [["r", ["x", "decimal"]]]], ["d", [["r", ["s", "1.50"]]]]],
          "op": "ne", "tr": [True, True]},
         {"vals": [["nan", "math"], ["nan", "new"], ["nan", "json"], ["nan", "calc"], ["s", "NaN"]], "op": None, "tr": [False, False]},
-        {"vals": [["l", [["nan", "math"]]], ["l", [["nan", "new"]]]], "op": None, "tr": [False, False]},                # D42
+        {"vals": [["l", [["nan", "math"]]], ["l", [["nan", "new"]]]], "op": None, "tr": [False, False]},                # D46
         {"vals": [["d", [[["i", 1], ["s", "a"]]]], ["d", [["1", ["s", "a"]]]]], "op": None, "tr": [False, False]},   # D33
     ]
 
